@@ -717,6 +717,9 @@ class AECDHKeyExchange(KeyExchange):
         ext_c = self.clientHello.getExtension(ExtensionType.ec_point_formats)
         ext_s = self.serverHello.getExtension(ExtensionType.ec_point_formats)
         if ext_c and ext_s:
+            if not ext_c.formats or not ext_s.formats:
+                raise TLSIllegalParameterException(
+                    "Empty EC point formats extension")
             try:
                 ext_negotiated = next((i for i in ext_c.formats \
                                        if i in ext_s.formats))
